@@ -508,7 +508,10 @@ def insert_at_lines(body, anchors, where):
 # ---------------------------------------------------------------- driver
 
 class Unit:
-    def __init__(self, repo, verif, template_path, canary=None, features=None):
+    def __init__(self, repo, verif, template_path, canary=None, features=None, no_decreases=False):
+        # partial correctness: exec recursion / loops the template has no `decreases` for are accepted
+        # (termination is not part of any property here); set by the driver on retry only
+        self.no_decreases = no_decreases
         self.feature_override = None if features is None else set(features)
         self.canary = canary          # vacuity guard: this fn gets `ensures false`
         self.canary_targets = []      # fns whose contract has a `requires`
@@ -519,6 +522,8 @@ class Unit:
         self.sources = {}
         self.items = []      # manifest entries
         self.external = []   # external_body contracts (assumptions)
+        self.auto_emitted = set()
+        self.template_text = open(template_path).read()
 
     def source(self, rel):
         if rel not in self.sources:
@@ -549,6 +554,49 @@ class Unit:
                 rules.add('E3b')
         self.items.append({'item': f'{kind} {name}', 'file': rel, 'sha256_16': sha(raw), 'rules': sorted(rules)})
         return text + '\n'
+
+    def auto_consts(self, s, text, rules):
+        """Rule E11: module-level `const` / `static` items of the same file that the extracted text
+        names (and that the template does not define or request itself) are extracted with it, so a
+        function that starts to use a new private constant keeps compiling."""
+        toks = s.toks
+        depth = 0
+        cands = {}
+        for i, t in enumerate(toks):
+            if t.kind == 'punct' and t.text == '{':
+                depth += 1
+            elif t.kind == 'punct' and t.text == '}':
+                depth -= 1
+            if depth == 0 and t.kind == 'id' and t.text in ('const', 'static') and i + 2 < len(toks):
+                j = i + 1
+                if toks[j].kind == 'id' and toks[j].text == 'mut':
+                    j += 1
+                if toks[j].kind == 'id' and j + 1 < len(toks) and toks[j + 1].text == ':':
+                    cands[toks[j].text] = t.text
+        if not cands:
+            return ''
+        used = set(re.findall(r'\b[A-Z][A-Z0-9_]*\b', text))
+        tmpl = getattr(self, 'template_text', '')
+        out = ''
+        for name in sorted(used & set(cands)):
+            if name in self.auto_emitted:
+                continue
+            if re.search(r'\b(const|static)\s+(mut\s+)?' + re.escape(name) + r'\b', tmpl) or re.search(r'//@item\s+\S+\s+(const|static)\s+' + re.escape(name) + r'\b', tmpl):
+                continue
+            try:
+                st, kw, end = s.find_item(cands[name], name)
+            except ExtractError:
+                continue
+            item = s.src[st:end]
+            r2 = set()
+            item = strip_doc_comments(item)
+            item = drop_attrs(item, r2)
+            item = drop_vis(item, r2)
+            self.auto_emitted.add(name)
+            self.items.append({'item': f'{cands[name]} {name} (auto, E11)', 'file': s.rel, 'sha256_16': sha(item), 'rules': ['E11']})
+            rules.add('E11')
+            out += item.strip() + '\n'
+        return out
 
     def emit_fn(self, rel, path, opts, sub):
         s = self.source(rel)
@@ -582,6 +630,7 @@ class Unit:
             sig = name_return(sig, sub['ret'], rules)
         body = resolve_cfg(body, self.features, rules)
         body = drop_attrs(body, rules)
+        deps = self.auto_consts(s, sig + body, rules)
         for d in sub.get('desugar', []):
             if d[0] == 'position':
                 body = desugar_position(body, rules)
@@ -630,13 +679,15 @@ class Unit:
                     new = new.rstrip('\n') + '\n' + ins
                 contract = new
         prefix = ''
+        if self.no_decreases and not sub.get('external_body'):
+            prefix = '#[verifier::exec_allows_no_decreases_clause]\n'
         if sub.get('external_body'):
             prefix = '#[verifier::external_body]\n'
             rules.add('E7')
             self.external.append(f'{path} ({rel}): body outside the Verus subset, contract trusted here and discharged by the paired Kani obligation: ' + ' '.join(contract.split()))
         if sub.get('external_body'):
             body = '{ unimplemented!() }   // body not in the Verus subset: dropped (E7), see the paired Kani obligation'
-        out = prefix + sig + '\n' + contract + body + '\n'
+        out = deps + prefix + sig + '\n' + contract + body + '\n'
         self.items.append({'item': f'fn {path}', 'file': rel, 'sha256_16': sha(raw), 'rules': sorted(rules)})
         return out
 
